@@ -2,7 +2,7 @@
 import ast, copy, hashlib, os, time
 import numpy as np, scipy.sparse as sp
 from vp.coqrun import clist, parse_zlist
-from vp import srcparams
+from vp import srcparams, link
 import umap
 
 RULE = ("every call history up to length L over {transform(current training data), transform(first training data), "
@@ -421,6 +421,12 @@ def unique_models_probe(ctx, data):
 def run(ctx):
     few_threads()
     ctx.check_proofs(["prop/P_C10.v"])
+    # translation tie: init_transform (the initial placement of the new points) regenerated from the current source (py2coq); link
+    # theorem (coq/link/L_transform.v): over every Num, for every rectangular (indices, weights) pair of the same shape and every
+    # embedding, the triple loop returns M_transform.init_transform_model: result[i][d] = left fold over j of acc + w[i][j] * E[idx[i][j]][d]
+    # from 0; capstone init_transform_convex (over R): non-negative weights summing to 1 place every coordinate between the
+    # neighbours' minimum and maximum of that coordinate
+    link.check(ctx, "umap_transform", {"init_transform": "src_init_transform_eq"})
     flags, ok = source_flags(ctx)
     ctx.extra["source_flags"] = dict(update_refreshes_input_hash=flags[0], update_refuses_graph_mode_up_front=flags[1],
                                      update_keeps_raw_data_in_sample_order=flags[2], read_from_source=ok)
